@@ -4,6 +4,7 @@
     structure-following tactic: same-scrutinee case analysis, congruence under binds, loops
     and catch, and [lia]-proved rewrites between boolean comparisons. *)
 From Coq Require Import ZArith List Bool Lia ZifyBool Btauto.
+From Coq Require Import Init.Byte.
 From HV Require Import Prelude.Py Prelude.State.
 Import ListNotations.
 Open Scope Z_scope.
@@ -87,6 +88,178 @@ Ltac bstep :=
 
 Ltac head_of t := match t with ?f _ => head_of f | _ => t end.
 
+(** * Loops whose states are the same variables in another order *)
+Definition map_ctl {S T R} (f : S -> T) (c : ctl S R) : ctl T R :=
+  match c with Next s => Next (f s) | Break s => Break (f s) | Return r s => Return r (f s) | Raise e s => Raise e (f s) end.
+Definition map_lres {S T R} (f : S -> T) (c : lres S R) : lres T R :=
+  match c with Done s => Done (f s) | Returned r s => Returned r (f s) | Raised e s => Raised e (f s)
+             | Exhausted s => Exhausted (f s) end.
+
+Lemma while_fuel_map {S T R} (f : S -> T) (g : S -> ctl S R) (h : T -> ctl T R) :
+  (forall s, h (f s) = map_ctl f (g s)) ->
+  forall fuel s, while_fuel fuel h (f s) = map_lres f (while_fuel fuel g s).
+Proof.
+  intros H fuel; induction fuel as [|k IH]; intros s; cbn [while_fuel map_lres]; [reflexivity|].
+  rewrite H. destruct (g s); cbn [map_ctl map_lres]; auto.
+Qed.
+
+Lemma for_each_map {A S T R} (f : S -> T) (g : A -> S -> ctl S R) (h : A -> T -> ctl T R) :
+  (forall a s, h a (f s) = map_ctl f (g a s)) ->
+  forall xs s, for_each xs h (f s) = map_lres f (for_each xs g s).
+Proof.
+  intros H xs; induction xs as [|x xs IH]; intros s; cbn [for_each map_lres]; [reflexivity|].
+  rewrite H. destruct (g x s); cbn [map_ctl map_lres]; auto.
+Qed.
+
+
+(** the permutations of pairs, triples and quadruples (the state of a loop is the tuple of the variables
+    its body assigns, in the order the translator meets them: an edit of the body can permute it) *)
+Definition tperm2_21 {A1 A2} (p : A1 * A2) : A2 * A1 := let '(x1, x2) := p in (x2, x1).
+Definition tperm3_132 {A1 A2 A3} (p : A1 * A2 * A3) : A1 * A3 * A2 := let '(x1, x2, x3) := p in (x1, x3, x2).
+Definition tperm3_213 {A1 A2 A3} (p : A1 * A2 * A3) : A2 * A1 * A3 := let '(x1, x2, x3) := p in (x2, x1, x3).
+Definition tperm3_231 {A1 A2 A3} (p : A1 * A2 * A3) : A2 * A3 * A1 := let '(x1, x2, x3) := p in (x2, x3, x1).
+Definition tperm3_312 {A1 A2 A3} (p : A1 * A2 * A3) : A3 * A1 * A2 := let '(x1, x2, x3) := p in (x3, x1, x2).
+Definition tperm3_321 {A1 A2 A3} (p : A1 * A2 * A3) : A3 * A2 * A1 := let '(x1, x2, x3) := p in (x3, x2, x1).
+Definition tperm4_1243 {A1 A2 A3 A4} (p : A1 * A2 * A3 * A4) : A1 * A2 * A4 * A3 := let '(x1, x2, x3, x4) := p in (x1, x2, x4, x3).
+Definition tperm4_1324 {A1 A2 A3 A4} (p : A1 * A2 * A3 * A4) : A1 * A3 * A2 * A4 := let '(x1, x2, x3, x4) := p in (x1, x3, x2, x4).
+Definition tperm4_1342 {A1 A2 A3 A4} (p : A1 * A2 * A3 * A4) : A1 * A3 * A4 * A2 := let '(x1, x2, x3, x4) := p in (x1, x3, x4, x2).
+Definition tperm4_1423 {A1 A2 A3 A4} (p : A1 * A2 * A3 * A4) : A1 * A4 * A2 * A3 := let '(x1, x2, x3, x4) := p in (x1, x4, x2, x3).
+Definition tperm4_1432 {A1 A2 A3 A4} (p : A1 * A2 * A3 * A4) : A1 * A4 * A3 * A2 := let '(x1, x2, x3, x4) := p in (x1, x4, x3, x2).
+Definition tperm4_2134 {A1 A2 A3 A4} (p : A1 * A2 * A3 * A4) : A2 * A1 * A3 * A4 := let '(x1, x2, x3, x4) := p in (x2, x1, x3, x4).
+Definition tperm4_2143 {A1 A2 A3 A4} (p : A1 * A2 * A3 * A4) : A2 * A1 * A4 * A3 := let '(x1, x2, x3, x4) := p in (x2, x1, x4, x3).
+Definition tperm4_2314 {A1 A2 A3 A4} (p : A1 * A2 * A3 * A4) : A2 * A3 * A1 * A4 := let '(x1, x2, x3, x4) := p in (x2, x3, x1, x4).
+Definition tperm4_2341 {A1 A2 A3 A4} (p : A1 * A2 * A3 * A4) : A2 * A3 * A4 * A1 := let '(x1, x2, x3, x4) := p in (x2, x3, x4, x1).
+Definition tperm4_2413 {A1 A2 A3 A4} (p : A1 * A2 * A3 * A4) : A2 * A4 * A1 * A3 := let '(x1, x2, x3, x4) := p in (x2, x4, x1, x3).
+Definition tperm4_2431 {A1 A2 A3 A4} (p : A1 * A2 * A3 * A4) : A2 * A4 * A3 * A1 := let '(x1, x2, x3, x4) := p in (x2, x4, x3, x1).
+Definition tperm4_3124 {A1 A2 A3 A4} (p : A1 * A2 * A3 * A4) : A3 * A1 * A2 * A4 := let '(x1, x2, x3, x4) := p in (x3, x1, x2, x4).
+Definition tperm4_3142 {A1 A2 A3 A4} (p : A1 * A2 * A3 * A4) : A3 * A1 * A4 * A2 := let '(x1, x2, x3, x4) := p in (x3, x1, x4, x2).
+Definition tperm4_3214 {A1 A2 A3 A4} (p : A1 * A2 * A3 * A4) : A3 * A2 * A1 * A4 := let '(x1, x2, x3, x4) := p in (x3, x2, x1, x4).
+Definition tperm4_3241 {A1 A2 A3 A4} (p : A1 * A2 * A3 * A4) : A3 * A2 * A4 * A1 := let '(x1, x2, x3, x4) := p in (x3, x2, x4, x1).
+Definition tperm4_3412 {A1 A2 A3 A4} (p : A1 * A2 * A3 * A4) : A3 * A4 * A1 * A2 := let '(x1, x2, x3, x4) := p in (x3, x4, x1, x2).
+Definition tperm4_3421 {A1 A2 A3 A4} (p : A1 * A2 * A3 * A4) : A3 * A4 * A2 * A1 := let '(x1, x2, x3, x4) := p in (x3, x4, x2, x1).
+Definition tperm4_4123 {A1 A2 A3 A4} (p : A1 * A2 * A3 * A4) : A4 * A1 * A2 * A3 := let '(x1, x2, x3, x4) := p in (x4, x1, x2, x3).
+Definition tperm4_4132 {A1 A2 A3 A4} (p : A1 * A2 * A3 * A4) : A4 * A1 * A3 * A2 := let '(x1, x2, x3, x4) := p in (x4, x1, x3, x2).
+Definition tperm4_4213 {A1 A2 A3 A4} (p : A1 * A2 * A3 * A4) : A4 * A2 * A1 * A3 := let '(x1, x2, x3, x4) := p in (x4, x2, x1, x3).
+Definition tperm4_4231 {A1 A2 A3 A4} (p : A1 * A2 * A3 * A4) : A4 * A2 * A3 * A1 := let '(x1, x2, x3, x4) := p in (x4, x2, x3, x1).
+Definition tperm4_4312 {A1 A2 A3 A4} (p : A1 * A2 * A3 * A4) : A4 * A3 * A1 * A2 := let '(x1, x2, x3, x4) := p in (x4, x3, x1, x2).
+Definition tperm4_4321 {A1 A2 A3 A4} (p : A1 * A2 * A3 * A4) : A4 * A3 * A2 * A1 := let '(x1, x2, x3, x4) := p in (x4, x3, x2, x1).
+
+Ltac unfold_tperms := cbv beta iota delta [tperm2_21 tperm3_132 tperm3_213 tperm3_231 tperm3_312 tperm3_321 tperm4_1243 tperm4_1324 tperm4_1342 tperm4_1423 tperm4_1432 tperm4_2134 tperm4_2143 tperm4_2314 tperm4_2341 tperm4_2413 tperm4_2431 tperm4_3124 tperm4_3142 tperm4_3214 tperm4_3241 tperm4_3412 tperm4_3421 tperm4_4123 tperm4_4132 tperm4_4213 tperm4_4231 tperm4_4312 tperm4_4321].
+(** continue with each permutation in turn (those of the wrong arity or types fail at once) *)
+Ltac each_tperm k :=
+  first
+    [ k uconstr:(tperm2_21)
+    | k uconstr:(tperm3_132)
+    | k uconstr:(tperm3_213)
+    | k uconstr:(tperm3_231)
+    | k uconstr:(tperm3_312)
+    | k uconstr:(tperm3_321)
+    | k uconstr:(tperm4_1243)
+    | k uconstr:(tperm4_1324)
+    | k uconstr:(tperm4_1342)
+    | k uconstr:(tperm4_1423)
+    | k uconstr:(tperm4_1432)
+    | k uconstr:(tperm4_2134)
+    | k uconstr:(tperm4_2143)
+    | k uconstr:(tperm4_2314)
+    | k uconstr:(tperm4_2341)
+    | k uconstr:(tperm4_2413)
+    | k uconstr:(tperm4_2431)
+    | k uconstr:(tperm4_3124)
+    | k uconstr:(tperm4_3142)
+    | k uconstr:(tperm4_3214)
+    | k uconstr:(tperm4_3241)
+    | k uconstr:(tperm4_3412)
+    | k uconstr:(tperm4_3421)
+    | k uconstr:(tperm4_4123)
+    | k uconstr:(tperm4_4132)
+    | k uconstr:(tperm4_4213)
+    | k uconstr:(tperm4_4231)
+    | k uconstr:(tperm4_4312)
+    | k uconstr:(tperm4_4321) ].
+
+(** * Bit operations as arithmetic, for [lia] (with the euclidean post-hook above) *)
+Lemma bz_range_ b : 0 <= bz b < 256.
+Proof. unfold bz. pose proof (Byte.to_N_bounded b). lia. Qed.
+Lemma shiftl_mul_c a n p : (0 <=? n) = true -> (2 ^ n =? p) = true -> Z.shiftl a n = a * p.
+Proof. intros Hn Hp. apply Z.leb_le in Hn. apply Z.eqb_eq in Hp. subst p. apply Z.shiftl_mul_pow2. exact Hn. Qed.
+Lemma shiftr_div_c a n p : (0 <=? n) = true -> (2 ^ n =? p) = true -> Z.shiftr a n = a / p.
+Proof. intros Hn Hp. apply Z.leb_le in Hn. apply Z.eqb_eq in Hp. subst p. apply Z.shiftr_div_pow2. exact Hn. Qed.
+Lemma land_mod_c a m k p : (0 <=? k) = true -> (Z.ones k =? m) = true -> (2 ^ k =? p) = true -> Z.land a m = a mod p.
+Proof.
+  intros Hk Hm Hp. apply Z.leb_le in Hk. apply Z.eqb_eq in Hm. apply Z.eqb_eq in Hp. subst m p.
+  apply Z.land_ones. exact Hk.
+Qed.
+Lemma land_mod_c' a m k p : (0 <=? k) = true -> (Z.ones k =? m) = true -> (2 ^ k =? p) = true -> Z.land m a = a mod p.
+Proof. intros. rewrite Z.land_comm. eapply land_mod_c; eassumption. Qed.
+Lemma lor_add_c a p x k : (0 <=? k) = true -> (2 ^ k =? p) = true -> 0 <= x < p -> Z.lor (a * p) x = a * p + x.
+Proof.
+  intros Hk Hp Hx. apply Z.leb_le in Hk. apply Z.eqb_eq in Hp. subst p.
+  assert (D : forall i, 0 <= i -> Z.testbit (a * 2 ^ k) i && Z.testbit x i = false).
+  { intros i Hi. destruct (Z_lt_le_dec i k) as [L|L].
+    - rewrite Z.mul_pow2_bits_low by lia. reflexivity.
+    - assert (H : Z.testbit x i = false).
+      { destruct (Z.eq_dec x 0) as [->|Hx0]; [apply Z.bits_0|].
+        pose proof (Z.pow_le_mono_r 2 k i ltac:(lia) L).
+        apply Z.bits_above_log2; [lia|]. apply Z.log2_lt_pow2; lia. }
+      rewrite H. apply andb_false_r. }
+  assert (L0 : Z.land (a * 2 ^ k) x = 0).
+  { apply Z.bits_inj'. intros i Hi. rewrite Z.land_spec, Z.bits_0. apply D. exact Hi. }
+  rewrite (Z.add_nocarry_lxor _ _ L0).
+  apply Z.bits_inj'. intros i Hi. rewrite Z.lor_spec, Z.lxor_spec.
+  specialize (D i Hi). destruct (Z.testbit (a * 2 ^ k) i), (Z.testbit x i); try reflexivity; discriminate D.
+Qed.
+Lemma lor_add_num x c k p : (0 <=? k) = true -> (2 ^ k =? p) = true -> (c mod p =? 0) = true -> 0 <= x < p ->
+  Z.lor x c = x + c.
+Proof.
+  intros Hk Hp Hc Hx. pose proof Hp as Hp'. apply Z.eqb_eq in Hp'. apply Z.eqb_eq in Hc.
+  assert (0 < p) by (subst p; apply Z.pow_pos_nonneg; [lia|apply Z.leb_le; exact Hk]).
+  assert (E : c = (c / p) * p) by (rewrite (Z.div_mod c p) at 1 by lia; lia).
+  rewrite E. rewrite Z.lor_comm, (lor_add_c (c / p) p x k Hk Hp Hx). lia.
+Qed.
+
+Ltac znum t :=
+  lazymatch t with
+  | Z0 => idtac
+  | Zpos ?p => pnum p
+  | Zneg ?p => pnum p
+  end
+with pnum p := lazymatch p with xH => idtac | xO ?q => pnum q | xI ?q => pnum q end.
+
+Ltac bz_facts :=
+  repeat match goal with
+  | |- context [bz ?b] => lazymatch goal with _ : 0 <= bz b < 256 |- _ => fail | _ => pose proof (bz_range_ b) end
+  | _ : context [bz ?b] |- _ => lazymatch goal with _ : 0 <= bz b < 256 |- _ => fail | _ => pose proof (bz_range_ b) end
+  end.
+
+(** shifts by a constant, masks 2^k - 1 and the union of disjoint bit ranges, as *, /, mod, + *)
+Ltac bitnorm :=
+  bz_facts;
+  repeat match goal with
+  | |- context [Z.shiftl ?a ?n] =>
+      znum n; let p := eval vm_compute in (2 ^ n) in rewrite (shiftl_mul_c a n p eq_refl eq_refl)
+  | |- context [Z.shiftr ?a ?n] =>
+      znum n; let p := eval vm_compute in (2 ^ n) in rewrite (shiftr_div_c a n p eq_refl eq_refl)
+  | |- context [Z.land ?a ?m] =>
+      znum m; let k := eval vm_compute in (Z.log2 (m + 1)) in let p := eval vm_compute in (2 ^ k) in
+      rewrite (land_mod_c a m k p eq_refl eq_refl eq_refl)
+  | |- context [Z.land ?m ?a] =>
+      znum m; let k := eval vm_compute in (Z.log2 (m + 1)) in let p := eval vm_compute in (2 ^ k) in
+      rewrite (land_mod_c' a m k p eq_refl eq_refl eq_refl)
+  | |- context [Z.lor (?a * ?p) ?x] =>
+      znum p; let k := eval vm_compute in (Z.log2 p) in
+      rewrite (lor_add_c a p x k eq_refl eq_refl) by lia
+  | |- context [Z.lor ?x (?a * ?p)] =>
+      znum p; let k := eval vm_compute in (Z.log2 p) in
+      rewrite (Z.lor_comm x (a * p)), (lor_add_c a p x k eq_refl eq_refl) by lia
+  | |- context [Z.lor ?x ?c] =>
+      znum c; let k := eval vm_compute in (Z.log2 (Z.land c (- c))) in let p := eval vm_compute in (2 ^ k) in
+      rewrite (lor_add_num x c k p eq_refl eq_refl eq_refl) by lia
+  | |- context [Z.lor ?c ?x] =>
+      znum c; let k := eval vm_compute in (Z.log2 (Z.land c (- c))) in let p := eval vm_compute in (2 ^ k) in
+      rewrite (Z.lor_comm c x), (lor_add_num x c k p eq_refl eq_refl eq_refl) by lia
+  end.
+
 (** * Equalities up to arithmetic *)
 Lemma len_nonneg_ {A} (l : list A) : 0 <= len l.
 Proof. unfold len. lia. Qed.
@@ -100,7 +273,10 @@ Ltac len_facts :=
       lazymatch goal with _ : 0 <= len l |- _ => fail | _ => pose proof (len_nonneg_ l) end
   end.
 
-Ltac zleaf := len_facts; solve [ lia | btauto | (norm_cmp; lia) | apply Z.land_comm | apply Z.lor_comm | apply Z.lxor_comm ].
+Ltac zleaf :=
+  len_facts;
+  solve [ lia | btauto | (norm_cmp; lia) | apply Z.land_comm | apply Z.lor_comm | apply Z.lxor_comm
+        | (bitnorm; lia) ].
 
 (** [a = b] when a and b have the same shape down to integer / boolean sub-terms that are equal by
     arithmetic: congruence first (so that an integer inside an uninterpreted term is found), [lia] or
@@ -167,20 +343,129 @@ Ltac tidy :=
     the combinators only) and an innermost scrutinee is destructed, one at a time, as in Bridge/B_dec_lib.v;
     loops with the same fuel and initial state are compared body against body.  [callees] rewrites with the
     bridges of the definitions that the two sides call (they need not be convertible). *)
-Ltac lexpose := cbv beta iota zeta delta [bind mbind sbind catch fst snd].
+Ltac lexpose :=
+  cbv beta iota zeta delta [bind mbind sbind catch fst snd map_ctl map_lres]; unfold_tperms.
 Ltac lfinish :=
   units; tidy;
   solve [ reflexivity | congruence | (exfalso; len_facts; lia) | (exfalso; congruence) | zcong ].
-Ltac loop_ext tac :=
+
+(** [for x in enumerate(xs, a)]: the index can be shifted into the body *)
+Lemma enumerate_from_shift {A} (k : Z) (xs : list A) : forall a,
+  enumerate_from (a + k) xs = map (fun ix => (fst ix + k, snd ix)) (enumerate_from a xs).
+Proof.
+  induction xs as [|x r IH]; intros a; cbn [enumerate_from map fst snd]; [reflexivity|].
+  replace (a + k + 1) with (a + 1 + k) by lia. rewrite IH. reflexivity.
+Qed.
+Lemma for_each_map_list {A B S R} (m : A -> B) (f : B -> S -> ctl S R) : forall xs s,
+  for_each (map m xs) f s = for_each xs (fun a => f (m a)) s.
+Proof.
+  induction xs as [|x r IH]; intros s; cbn [for_each map]; [reflexivity|].
+  destruct (f (m x) s); auto.
+Qed.
+Lemma for_each_enumerate_0 {A S R} (a : Z) (xs : list A) (f : Z * A -> S -> ctl S R) s :
+  for_each (enumerate_from a xs) f s = for_each (enumerate_from 0 xs) (fun ix => f (fst ix + a, snd ix)) s.
+Proof. rewrite <- (Z.add_0_l a) at 1. rewrite enumerate_from_shift, for_each_map_list. reflexivity. Qed.
+
+(** Two loops of the goal that should be one: same fuel / same list and
+    - the same initial state: compared body against body;
+    - initial states that are permutations of each other (the state is the tuple of the variables the
+      body assigns, in an order that an edit of the body can change): compared under that permutation;
+    - [enumerate(xs, a)] against [enumerate(xs)]: the start is moved into the body first. *)
+Ltac loop_sync tac :=
   match goal with
+  | |- context [for_each (enumerate_from ?a ?xs) ?f ?s] =>
+      lazymatch a with 0 => fail | _ => rewrite (for_each_enumerate_0 a xs f s) end
   | |- context [while_fuel ?n ?f ?s] =>
       match goal with |- context [while_fuel n ?g s] =>
         differ f g; rewrite (while_fuel_ext f g) by (intros; destruct_pairs; tac) end
   | |- context [for_each ?xs ?f ?s] =>
       match goal with |- context [for_each xs ?g s] =>
         differ f g; rewrite (for_each_ext f g) by (intros; destruct_pairs; tac) end
+  | |- context [while_fuel ?n ?g ?s] =>
+      match goal with |- context [while_fuel n ?h ?t] =>
+        differ s t;
+        each_tperm ltac:(fun f =>
+          let E := fresh in
+          assert (E : t = f s) by (unfold_tperms; zcong);
+          rewrite E; clear E;
+          rewrite (while_fuel_map f g h) by (intros; destruct_pairs; unfold_tperms; tac)) end
+  | |- context [for_each ?xs ?g ?s] =>
+      match goal with |- context [for_each xs ?h ?t] =>
+        differ s t;
+        each_tperm ltac:(fun f =>
+          let E := fresh in
+          assert (E : t = f s) by (unfold_tperms; zcong);
+          rewrite E; clear E;
+          rewrite (for_each_map f g h) by (intros; destruct_pairs; unfold_tperms; tac)) end
   end.
-Ltac lcrush callees := repeat (lexpose; callees; first [ lfinish | loop_ext ltac:(lcrush callees) | break_match ]).
+(** a loop that has no counterpart left to be identified with: its result is analysed *)
+Ltac loop_destruct :=
+  match goal with
+  | |- context [while_fuel ?n ?g ?s] => destruct (while_fuel n g s) eqn:?; destruct_pairs
+  | |- context [for_each ?xs ?g ?s] => destruct (for_each xs g s) eqn:?; destruct_pairs
+  end.
+
+(** * A parameter confined to a small range by a guard: one case per value, then computation.
+    ([mask = 0xFF >> (8 - n)] against [2^n - 1] read from a table are equal for n = 1..8 only.) *)
+Ltac fold_consts :=
+  repeat match goal with
+  | |- context [?op ?a ?b] =>
+      znum a; znum b; let T := type of (op a b) in constr_eq T Z;
+      let v := eval vm_compute in (op a b) in znum v; change (op a b) with v
+  | H : context [?op ?a ?b] |- _ =>
+      znum a; znum b; let T := type of (op a b) in constr_eq T Z;
+      let v := eval vm_compute in (op a b) in znum v; change (op a b) with v in H
+  end.
+(** [index_Z <constant table> <constant> = Ok v]: v is known *)
+Ltac fold_lookups :=
+  repeat match goal with
+  | H : @index_Z ?T ?l ?i = Ok ?v |- _ =>
+      is_var v; znum i;
+      let r := eval vm_compute in (@index_Z T l i) in
+      lazymatch r with
+      | Ok ?c => let E := fresh in
+                 assert (E : v = c) by (cut (Ok v = Ok c); [congruence | rewrite <- H; vm_compute; reflexivity]);
+                 subst v; clear H
+      end
+  | H : @index_Z ?T ?l ?i = Err _ |- _ =>
+      znum i;
+      let r := eval vm_compute in (@index_Z T l i) in
+      lazymatch r with Ok ?c => exfalso; cut (@index_Z T l i = Ok c); [congruence | vm_compute; reflexivity] end
+  end.
+Ltac split_from p a b :=
+  let over := eval vm_compute in (b <? a) in
+  lazymatch over with
+  | true => exfalso; lia
+  | false =>
+      let a' := eval vm_compute in (a + 1) in
+      let H := fresh in
+      assert (H : p = a \/ a' <= p) by lia; destruct H as [H|H]; [subst p | split_from p a' b]
+  end.
+Ltac range_split :=
+  match goal with
+  | _ : context [?c1 ?p ?a] |- _ =>
+      is_var p; znum a; let T := type of p in constr_eq T Z;
+      match goal with
+      | _ : context [?c2 p ?b] |- _ =>
+          znum b;
+          let small := eval vm_compute in ((a <=? b) && (b - a <=? 32)) in
+          lazymatch small with true => idtac end;
+          let R := fresh in
+          first [ assert (R : a <= p <= b) by lia | assert (R : a - 1 <= p <= b + 1) by lia ];
+          first [ split_from p a b | let a' := eval vm_compute in (a - 1) in let b' := eval vm_compute in (b + 1) in
+                                     split_from p a' b' ]
+      end
+  end; fold_consts; fold_lookups; fold_consts.
+
+(** [lcrush]: every goal must be closed; the first one that cannot be stops everything (a bridge that does not
+    hold, or a wrong guess of [loop_sync], fails on its first stuck case instead of exploring them all).
+    [lcrush_show] is the same but leaves the stuck goals, for inspection. *)
+Ltac lstep callees self :=
+  first [ loop_sync ltac:(self) | break_match | loop_destruct | range_split ].
+Ltac lcrush callees :=
+  lexpose; callees; first [ lfinish | (lstep callees ltac:(lcrush callees); lcrush callees) ].
+Ltac lcrush_show callees :=
+  repeat (lexpose; callees; first [ lfinish | lstep callees ltac:(lcrush callees) ]).
 
 (* small integer constants of the source and of the model are unfolded to their values, so that
    [lia] can compare tests written against them (redefined in Bridge/BridgeConsts.v) *)
